@@ -3,23 +3,37 @@ CFG = dict(
     claim="Theorems C04_base64_roundtrip, C04_codec_exact, C04_values_kept, C04_no_invention, C04_values_general (metadata codec: "
           "byte-exact round trip for every metadata map and every map iteration order) and C04_flush_headers, C04_flush_trailers "
           "(server stream object: for every program of header/trailer/message calls the first envelope carries exactly the accepted "
-          "header metadata, the single trailer envelope exactly the accepted trailer metadata) in coq/Props/C04.v; the models are run "
-          "against ToKeyValue/ToMetadata, the real serverStream and the unary collector on every run.",
+          "header metadata, the single trailer envelope exactly the accepted trailer metadata); C04_sys_request, C04_sys_request_exact "
+          "(handler's incoming metadata minus the injected grpc-timeout key = normalised caller metadata), C04_sys_stream_header, "
+          "C04_sys_stream_trailer (caller's Header()/Trailer() = normalised join of what the handler's accepted calls set, for every "
+          "handler program, result and map iteration order), C04_sys_unary, C04_sys_values, C04_sys_no_invention in coq/Props/C04.v; the "
+          "models are run against ToKeyValue/ToMetadata, the real serverStream and the unary collector, and the composition against "
+          "whole RPCs (real client, link, real server, all four kinds) on every run.",
     props="Props/C04.v",
     theorems=["C04_base64_roundtrip", "C04_codec_exact", "C04_values_kept", "C04_no_invention",
-              "C04_values_general", "C04_flush_headers", "C04_flush_trailers"],
-    imports=["Base.Bytes", "Model.Base64", "Model.Meta", "Model.SrvStream", "Check.C04c"],
+              "C04_values_general", "C04_flush_headers", "C04_flush_trailers", "C04_sys_request", "C04_sys_request_exact",
+              "C04_sys_stream_header", "C04_sys_stream_trailer", "C04_sys_unary", "C04_sys_values", "C04_sys_no_invention"],
+    go_tags="st",
+    imports=["Base.Bytes", "Model.Base64", "Model.Meta", "Model.SrvStream", "Model.MetaSys", "Check.C04c"],
     case_type="c04case",
     find_bad_from="find_bad_from",
-    rigs=[dict(test="TestC04", timeout_quick=300, timeout_thorough=1200)],
+    rigs=[dict(test="TestC04", timeout_quick=300, timeout_thorough=1200),
+          dict(test="TestC04Sys", timeout_quick=300, timeout_thorough=1200)],
     reason_text={"1": "implementation output differs from the Gallina model (Model/Meta.v, Base64.v, SrvStream.v)",
-                 "2": "implementation output violates the property predicate (Check/C04c.v: spec_codec / spec_stream / accepted tokens)"},
+                 "2": "implementation output violates the property predicate (Check/C04c.v: spec_codec / spec_stream / accepted tokens / "
+                      "spec_same: same keys lower-cased, same values in per-key order, byte-exact, nothing else)",
+                 "3": "header metadata on an envelope after the first one"},
     rule="codec: seeded metadata sets (0..16 keys over the gRPC key alphabet in any letter case, -bin suffix in 4 case variants, "
          "1..4 values, binary values incl. empty/NUL/0xFF/alphabet chars 62-63/long, keys colliding after lower-casing, 1..3 maps "
          "joined) through ToKeyValue then ToMetadata; base64 decoder on fixed + random malformed strings (CR/LF, padding, std "
          "alphabet, raw); ToMetadata on mixed lists; server stream object: ALL programs of length<=4 (thorough: 5) over "
          "{SetHeader,SendHeader,SetTrailer,SendMsg,SendTrailer} plus random longer ones; unary collector: all programs of "
-         "length<=5; non-trivial = distinct description hash",
+         "length<=5; whole RPCs in bubbles (real client, link, real server): {unary, client-, server-, bidi stream} x caller metadata "
+         "(0..16 keys, any letter case, 1..4 values, -bin values with NUL/0xFF/empty; attached through the outgoing context, a client "
+         "interceptor, or both; with and without a deadline) x handler programs of 0..5 calls over {SetHeader, SendHeader, SetTrailer, "
+         "SendMsg} with raw metadata.MD literals (mixed-case -Bin suffixes), through the stream's methods or grpc.SetHeader/SendHeader/"
+         "SetTrailer, returning nil or an error, plus fixed scenarios for the three ways headers leave: handler's incoming metadata, "
+         "caller's Header()/Trailer() (unary: stats InHeader / wire list) and the wire lists vs the model; non-trivial = distinct description hash",
     assumptions=["encoding/base64, strings.ToLower/HasSuffix, metadata.Join and Go map iteration are Go's/grpc's: modelled and validated differentially, not verified",
                  "values under text keys are not inspected by the library (opaque)"],
 )
